@@ -485,7 +485,7 @@ def register(M):
     M('C09_F1', ['C09'], 'doctest_example.py',
       "                            if 0 < tb_lineno <= len(orig_lines):", "                            if True:",
       'reverse of fix F1 (IndexError when rendering a failure raised in a helper of an earlier, longer part)')
-    M('C09_F4', ['C09', 'C12'], 'doctest_example.py',
+    M('C09_F4', ['C09'], 'doctest_example.py',
       "                    self.exc_info = sys.exc_info()\n                    self.failed_tb_lineno = getattr(ex, 'lineno', None) or 1\n                    self.logged_evals[partx] = got_eval\n                    self.logged_stdout[partx] = ''\n                    if on_error == 'raise':\n                        raise\n                    break",
       "                    raise",
       'reverse of fix F4 (compile-only errors escape run)')
